@@ -1,3 +1,4 @@
+import Proofs.LoadComplete
 import Proofs.LoadDag
 /-!
 # C14 — a node that syncs the DAG from a peer reproduces the peer's ledger
@@ -66,5 +67,25 @@ def cv : Vertex := ⟨3, "n", 1, 1, 1, ⟨4, "w", "x", ⟨3, 0⟩, false⟩, tru
 example : (({ self := "m" } : Book).loadDag [cv, gv] [cv, gv] (some gv)).2 = .ok () ∧
     (({ self := "m" } : Book).loadDag [cv, gv] [cv, gv] (some gv)).1.edges = [(1, 3)] := by
   constructor <;> rfl
+
+/-- **Syncing reproduces the peer's ledger.** Let `src` be any reachable ledger (any history of proposals,
+gossip, orphan retries, trusted-node changes) that has not been truncated, and let its vertices reach a fresh
+node in ANY order (`stream`), the loader visiting them in ANY order (`scan`). Then LoadDag succeeds and the node
+holds exactly the peer's vertices and exactly the peer's parent links, one index entry per transaction, is
+marked loaded and takes its genesis address from the root it was given. (The one side condition on the data:
+a parentless vertex — the genesis — carries a non-empty transaction, otherwise the loader's own guard refuses
+it.) The truncated-peer case is the recorded finding `truncated-peer-cannot-be-synced`. -/
+theorem honest_load_reproduces_ledger (src : Book) (r : Reachable src) (hcp : src.cpVerts = [])
+    (hgen : ∀ v ∈ src.verts, v.left = 0 → v.trx.isEmpty = false)
+    (dst : Book) (hd1 : dst.verts = []) (hd2 : dst.edges = []) (hd3 : dst.index = []) (hd4 : dst.loaded = false)
+    (stream scan : List Vertex) (hs : stream.Perm src.verts) (hsc : scan.Perm src.verts)
+    (root : Vertex) (hroot : root ∈ src.verts) (hrootBare : ∀ e ∈ src.edges, e.2 ≠ root.hash) :
+    (dst.loadDag stream scan (some root)).2 = .ok () ∧
+    (dst.loadDag stream scan (some root)).1.loaded = true ∧
+    (dst.loadDag stream scan (some root)).1.genesis = root.trx.issuer ∧
+    (dst.loadDag stream scan (some root)).1.verts = stream ∧
+    (dst.loadDag stream scan (some root)).1.index = stream.map (fun v => (v.trx.hash, v.hash)) ∧
+    (∀ e, e ∈ (dst.loadDag stream scan (some root)).1.edges ↔ e ∈ src.edges) :=
+  loadDag_reproduces src r hcp hgen dst hd1 hd2 hd3 hd4 stream scan hs hsc root hroot hrootBare
 
 end Props.C14
